@@ -400,9 +400,12 @@ package bug
 //@ func Create
 //@   props C10 C16
 //@   assert at `b.Append(op)` [only-a-validated-operation-is-appended] dag.baseChecked == op && dag.baseCheckedOK
+// lastEditFiles: the files handed to the last EditComment (ghost record)
+//@ ghost var lastEditFiles []repository.Hash
 //@ func EditComment
 //@   props C10 C16
 //@   opt assume_pre=CombineIds
+//@   defines [files-recorded] lastEditFiles == files
 //@   assert at `b.Append(op)` [only-a-validated-operation-is-appended] dag.baseChecked == op && dag.baseCheckedOK
 //@ func ForceChangeLabels
 //@   props C10 C16
@@ -448,3 +451,10 @@ package bug
 //@   loop 1
 //@     invariant firstOp != nil && firstOp.Type() == CreateOp
 //@     invariant [no-create-after-the-first] forall k int :: { rangeslice[k] } 1 <= k && k <= rangeindex ==> rangeslice[k].Type() != CreateOp
+
+// Editing the description of a bug is editing its first comment - with the text and the files given (C04: attached
+// files are stored with the operation and travel with the entity).
+//@ func EditCreateComment
+//@   props C04 C10
+//@   stable lastEditFiles
+//@   ensures [edits-with-the-files-given] lastEditFiles == files
